@@ -196,7 +196,8 @@ class Interp:
                     return hd
                 raise Unsupported("dict display with several symbolic keys")
             d[kk] = self.ev(v)
-        return self.new_dict(d)
+        # dicts built by the code under verification live on the heap (they may later receive symbolic keys)
+        return self.c.promote_dict(self.new_dict(d))
 
     def ev_JoinedStr(self, e):
         parts = []
@@ -373,6 +374,10 @@ class Interp:
         c = self.c
         if isinstance(o, Sym):
             o = self.resolve(o)
+        if isinstance(o, Sym) and o.t.sort() == Val and (o.ty or "val") == "val":
+            o = self.resolve_untyped(o)
+            if o is None:
+                self.py_raise(AttributeError, f"'NoneType' object has no attribute '{name}'")
         if isinstance(o, Sym):
             ty = o.ty
             if ty == "Node":
@@ -488,6 +493,27 @@ class Interp:
         if isinstance(v, PList) and ty.split(":")[0] == "list":
             return True
         return z3.simplify(self.c.ty_fact(tv, ty))
+
+    def resolve_untyped(self, v):
+        """fork an untyped symbolic value over the run-time classes that have attributes here"""
+        c = self.c
+        t = v.t
+        if c.branch(t == Val.none, "isnone"):
+            return None
+        r = Val.r(t)
+        if c.branch(z3.And(Val.is_ref(t), kind(r) == KIND_NODE), "isnode"):
+            c.fact(z3.And(r > 0, r < c.heap.top))
+            return Sym(r, "Node")
+        if c.branch(z3.And(Val.is_ref(t), kind(r) == KIND_LIST), "islist"):
+            return Sym(r, "list:val")
+        if c.branch(z3.And(Val.is_ref(t), kind(r) == KIND_DICT), "isdict"):
+            return Sym(r, "dict:val")
+        if c.branch(Val.is_strv(t), "isstr"):
+            return Sym(Val.s(t), "str")
+        c.sync()
+        if c.solver.check() == z3.unsat:      # the quantified facts rule the remaining classes out
+            raise Infeasible()
+        raise Unsupported("attribute access on a symbolic value of unknown class")
 
     def resolve(self, v):
         """fork an optional symbolic value into None / the narrowed inner value."""
